@@ -74,14 +74,14 @@ NATIVE = {
               'family': '.hash and .gnu.hash sections BUILT per the gABI / GNU format by an independent builder for 0-8 symbols (duplicates, non-UTF-8 names), 1-8 buckets, 1-4 bloom words, shifts 0-31, both classes and byte orders, optionally one corrupted byte; every present name must be found, every absent name give None, every answer be sound'},
     'c05n': {'enum': 'stream_oracle::enumerate', 'check': 'slice_oracle::check_c05_file(&c.file[..c.cut.min(c.file.len())])', 'n': _n('VERIF_STREAM_CASES', '150000'),
              'family': 'the ELF64/LE files of the stream oracle: header tables against an independent decode of e_shoff/e_shnum/e_phoff/e_phnum with the extended-numbering rules; open fails iff an entry size is wrong or a table does not fit'},
-    'c04n': {'enum': 'byte_families::fam_c04', 'check': 'byte_families::run_c04(c)', 'n': 400000, 'family': 'buffers <= 12 bytes, offsets inside/at/past the end and near usize::MAX, six readers x four byte-order specifications'},
-    'c15n': {'enum': 'byte_families::fam_c15', 'check': 'byte_families::run_c15(c)', 'n': 400000, 'family': 'string tables <= 10 bytes over {NUL, ASCII, invalid UTF-8}: get_raw and get'},
-    'c09n': {'enum': 'byte_families::fam_c09', 'check': 'byte_families::run_c09(c)', 'n': 300000, 'family': 'lazy tables over <= 40 bytes (u32 entries and Rel/ELF32 entries), indexes inside/at/past len and huge'},
-    'c10n': {'enum': 'byte_families::fam_c10', 'check': 'byte_families::run_c10(c)', 'n': 300000, 'family': 'valid idents with 0-3 bytes replaced'},
-    'c14n': {'enum': 'byte_families::fam_c14', 'check': 'byte_families::run_c14(c)', 'n': 300000, 'family': '1-3 note records (GNU / other names, types 1/3/5, sizes on and off the alignment), alignments 0,1,2,3,4,8,16, truncation, corrupted size words'},
-    'c03n': {'enum': 'byte_families::fam_c03', 'check': 'byte_families::run_c03(c)', 'n': 50000, 'family': 'section / segment ranges around the boundaries of a 60-byte file and around u64 overflow'},
-    'c13i': {'enum': 'byte_families::fam_c13i', 'check': 'byte_families::run_c13i(c)', 'n': 300000, 'family': 'structured version sections iterated from several offsets and counts (three records each)'},
-    'c02n': {'enum': 'byte_families::fam_c02', 'check': 'run_c02(c)', 'n': 600000, 'family': 'every ABI structure decoded from buffers <= 80 bytes at offsets 0..8 and past the end, both classes and byte orders, against the layout table'},
+    'c04n': {'tags': ['C04'], 'enum': 'byte_families::fam_c04', 'check': 'byte_families::run_c04(c)', 'n': 400000, 'family': 'buffers <= 12 bytes, offsets inside/at/past the end and near usize::MAX, six readers x four byte-order specifications'},
+    'c15n': {'tags': ['C15'], 'enum': 'byte_families::fam_c15', 'check': 'byte_families::run_c15(c)', 'n': 400000, 'family': 'string tables <= 10 bytes over {NUL, ASCII, invalid UTF-8}: get_raw and get'},
+    'c09n': {'tags': ['C09'], 'enum': 'byte_families::fam_c09', 'check': 'byte_families::run_c09(c)', 'n': 300000, 'family': 'lazy tables over <= 40 bytes (u32 entries and Rel/ELF32 entries), indexes inside/at/past len and huge'},
+    'c10n': {'tags': ['C10'], 'enum': 'byte_families::fam_c10', 'check': 'byte_families::run_c10(c)', 'n': 300000, 'family': 'valid idents with 0-3 bytes replaced'},
+    'c14n': {'tags': ['C14'], 'enum': 'byte_families::fam_c14', 'check': 'byte_families::run_c14(c)', 'n': 300000, 'family': '1-3 note records (GNU / other names, types 1/3/5, sizes on and off the alignment), alignments 0,1,2,3,4,8,16, truncation, corrupted size words'},
+    'c03n': {'tags': ['C03'], 'enum': 'byte_families::fam_c03', 'check': 'byte_families::run_c03(c)', 'n': 50000, 'family': 'section / segment ranges around the boundaries of a 60-byte file and around u64 overflow'},
+    'c13i': {'tags': ['C13', 'C16'], 'enum': 'byte_families::fam_c13i', 'check': 'byte_families::run_c13i(c)', 'n': 300000, 'family': 'structured version sections iterated from several offsets and counts (three records each)'},
+    'c02n': {'tags': ['C02'], 'enum': 'byte_families::fam_c02', 'check': 'run_c02(c)', 'n': 600000, 'family': 'every ABI structure decoded from buffers <= 80 bytes at offsets 0..8 and past the end, both classes and byte orders, against the layout table'},
     'c13n': {'enum': 'slice_oracle::enumerate_symver', 'check': 'slice_oracle::check_symver(c)', 'n': _n('VERIF_SYMVER_CASES', '300000'),
              'family': 'version sections from kani/replay_src/slice_oracle.rs::enumerate_symver: 1-4 versym entries, 0-3 verneed records with one auxiliary record each, 0-3 verdef records, forward/zero/out-of-range links, hidden bits, unreadable strings; get_requirement/get_definition against a reference resolution'},
 }
@@ -169,6 +169,18 @@ def gen_harness_rs(hs):
 
 LIB_HEAD = '''#![allow(unused_macros, unreachable_code, unused_variables, dead_code, unused_parens)]
 macro_rules! fail { ($($a:tt)*) => { { #[cfg(kani)] { return Err(String::new()); } #[cfg(not(kani))] { return Err(format!($($a)*)); } } } }
+/// run one oracle call; a panic is told apart by WHERE it was raised: inside the crate under test (its sources are the
+/// path dependency .../elf/src/) it is a panic of the code under test ("PANIC"), anywhere else it is the oracle tripping
+/// over an unexpected answer ("ORACLE-PANIC": a discrepancy of the family's own property, never a panic-freedom failure)
+#[cfg(not(kani))] pub static PANIC_LOC: std::sync::Mutex<String> = std::sync::Mutex::new(String::new());
+#[cfg(not(kani))] pub fn guarded<F: FnOnce() -> Result<(), String>>(f: F) -> Result<(), String> {
+    std::panic::set_hook(Box::new(|info| { let l = info.location().map(|l| format!("{}:{}", l.file(), l.line())).unwrap_or_default(); if let Ok(mut g) = PANIC_LOC.lock() { *g = format!("{} ({})", l, info.to_string().lines().last().unwrap_or("")); } }));
+    match std::panic::catch_unwind(std::panic::AssertUnwindSafe(f)) {
+        Ok(r) => r,
+        Err(_) => { let l = PANIC_LOC.lock().map(|g| g.clone()).unwrap_or_default();
+            if l.contains("elf/src/") { Err(format!("PANIC: the code under test panicked at {}", l)) } else { Err(format!("ORACLE-PANIC: the oracle could not digest the crate's answer (panic at {})", l)) } }
+    }
+}
 '''
 
 def setup(tmp):
@@ -226,13 +238,17 @@ def search_native(harness, timeout=420, tmp_shared=None, prop=None):
         nv = NATIVE[harness]
         os.makedirs(os.path.join(tmp, 'src', 'bin'), exist_ok=True)
         open(os.path.join(tmp, 'src', 'bin', 'native_search.rs'), 'w').write('''use elf_verif_replay::*;
+const TAGS: &[&str] = &[%s];
 fn main() {
-    std::panic::set_hook(Box::new(|_| {}));
+    let p = std::env::var("VERIF_ORACLE_PROP").unwrap_or_default();
     for (i, c) in %s(%d, %d).iter().enumerate() {
-        let r = std::panic::catch_unwind(std::panic::AssertUnwindSafe(|| %s));
-        let msg = match r { Ok(Ok(())) => continue, Ok(Err(e)) => e, Err(_) => "PANIC: the code under test panicked".to_string() };
-        // a family serves several properties: only failures of the property being checked count (a panic counts for all)
-        if let Ok(p) = std::env::var("VERIF_ORACLE_PROP") { if !p.is_empty() && !msg.starts_with(&format!("{}:", p)) && !msg.starts_with("PANIC") { continue; } }
+        let msg = match guarded(|| %s) { Ok(()) => continue, Err(e) => e };
+        // a family serves the properties it is tagged with (or, untagged, tags each message itself): only failures of the
+        // property being checked count; a panic INSIDE the crate under test counts for every property
+        if !p.is_empty() && !msg.starts_with("PANIC") {
+            let mine = if TAGS.is_empty() { msg.starts_with(&format!("{}:", p)) } else { TAGS.contains(&p.as_str()) };
+            if !mine { continue; }
+        }
         println!("FOUND {}", i);
         println!("CASE {:?}", c);
         println!("MSG {}", msg);
@@ -240,7 +256,7 @@ fn main() {
     }
     println!("NONE");
 }
-''' % (nv['enum'], nv['n'], STREAM_SEED, nv['check']))
+''' % (', '.join('"%s"' % t for t in nv.get('tags', [])), nv['enum'], nv['n'], STREAM_SEED, nv['check']))
         # optimised, but WITH overflow checks and debug assertions: an arithmetic overflow must panic as it does in a debug build (C01)
         env = dict(os.environ, CARGO_NET_OFFLINE='true', CARGO_TARGET_DIR=os.path.join(tmp, 'target'), RUSTFLAGS='-Awarnings -C overflow-checks=on -C debug-assertions=on', VERIF_ORACLE_PROP=prop or '')
         t0 = time.time()
@@ -256,7 +272,7 @@ fn main() {
         case = {'family': nv['enum'], 'cases': nv['n'], 'seed': STREAM_SEED, 'index': idx, 'case': (mc.group(1)[:6000] if mc else '')}
         main = ('use elf_verif_replay::*;\nfn main() {\n    // case #%d of the family %s(%d, %d) -- regenerated deterministically; its contents are in the replay file\n'
                 '    let cases = %s(%d, %d);\n    let c = &cases[%d];\n'
-                '    match %s {\n        Ok(()) => println!("replay: the real crate behaves as specified on this input"),\n'
+                '    match guarded(|| %s) {\n        Ok(()) => println!("replay: the real crate behaves as specified on this input"),\n'
                 '        Err(e) => { println!("REPLAY FAILS on the real crate: {}", e); std::process::exit(1); }\n    }\n}\n') % (idx, nv['enum'], nv['n'], STREAM_SEED, nv['enum'], nv['n'], STREAM_SEED, idx, nv['check'])
         open(os.path.join(tmp, 'src', 'bin', 'replay.rs'), 'w').write(main)
         r = subprocess.run(['cargo', 'run', '--offline', '-q', '--release', '--bin', 'replay'], cwd=tmp, env=env, capture_output=True, text=True, timeout=600)
@@ -300,12 +316,12 @@ def search(harness, timeout=420, prop=None):
         shutil.rmtree(tmp, ignore_errors=True)
 
 PAIRING = [
-    (r'^C04\.(u8|u16|u32|u64|i32|i64)\.', lambda m: 'c04_' + m.group(1)),
-    (r'^C15\.get_raw\.', lambda m: 'c15'),
-    (r'^C15\.get\.', lambda m: 'c15_get'),
-    (r'^C09\.(len_is_floor|is_empty_iff_len0)', lambda m: 'c09_len'),
-    (r'^C09\.(get\.|next\.|iter)', lambda m: 'c09'),
-    (r'^C10\.(verify_ident|parse_ident|from_ei_data)\.', lambda m: 'c10'),
+    (r'^C04\.(u8|u16|u32|u64|i32|i64)\.', lambda m: ['c04n', 'c04_' + m.group(1)]),
+    (r'^C15\.get_raw\.', lambda m: ['c15n', 'c15']),
+    (r'^C15\.get\.', lambda m: ['c15n', 'c15_get']),
+    (r'^C09\.(len_is_floor|is_empty_iff_len0)', lambda m: ['c09n', 'c09_len']),
+    (r'^C09\.(get\.|next\.|iter)', lambda m: ['c09n', 'c09']),
+    (r'^C10\.(verify_ident|parse_ident|from_ei_data)\.', lambda m: ['c10n', 'c10']),
     (r'^(C12\.sysv_hash|C11\.gnu_hash|proof:hash::sysv_hash|proof:hash::gnu_hash)', lambda m: 'hash'),
     (r'^(C07|C08|C17)\.|^C05\.stream_|^C10\.open_stream|^(safety|proof):elf_stream::', lambda m: 'stream'),
     (r'^C20\.|^proof:elf_bytes::ElfBytes::(find_common_data|symbol_table|dynamic_symbol_table|dynamic|section_header_by_name)', lambda m: 'c20n'),
@@ -315,12 +331,20 @@ PAIRING = [
     (r'^(safety|proof):elf_bytes::(find_shdrs|find_phdrs|ElfBytes::minimal_parse)', lambda m: 'c05n'),
     (r'^(safety|termination):elf_bytes::ElfBytes::', lambda m: 'c20n'),
     (r'^C05\.(shdrs|phdrs|open)\.', lambda m: 'c05n'),
-    (r'^C14\.(note|iter)\.', lambda m: ['c14_a4', 'c14_a8', 'c14_a3']),
-    (r'^C03\.(section_range|segment_range|section_data|segment_data)\.', lambda m: 'c03_range'),
-    (r'^C1[36]\.VerNeedIterator\.next\.', lambda m: 'c13_need'),
-    (r'^C1[36]\.VerDefIterator\.next\.', lambda m: 'c13_def'),
-    (r'^C02\.parse_at\.[a-z_]+@ParseAt for (\w+)::parse_at$', lambda m: 'c02_' + m.group(1).lower()),
-    (r'^C02\.size_for@ParseAt for (\w+)::size_for$', lambda m: 'c02_' + m.group(1).lower()),
+    (r'^C14\.(note|iter)\.', lambda m: ['c14n', 'c14_a4', 'c14_a8', 'c14_a3']),
+    (r'^C03\.(section_range|segment_range|section_data|segment_data)\.', lambda m: ['c03n', 'c03_range']),
+    (r'^C1[36]\.VerNeedIterator\.next\.', lambda m: ['c13i', 'c13_need']),
+    (r'^C1[36]\.VerDefIterator\.next\.', lambda m: ['c13i', 'c13_def']),
+    (r'^C02\.parse_at\.[a-z_]+@ParseAt for (\w+)::parse_at$', lambda m: ['c02n', 'c02_' + m.group(1).lower()]),
+    (r'^C02\.size_for@ParseAt for (\w+)::size_for$', lambda m: ['c02n', 'c02_' + m.group(1).lower()]),
+    # panic-freedom obligations of the byte-level modules: the native families (a panic inside the crate counts for C01)
+    (r'^(safety|termination|proof):endian::', lambda m: 'c04n'),
+    (r'^(safety|termination|proof):string_table::', lambda m: 'c15n'),
+    (r'^(safety|termination|proof):parse::Parsing', lambda m: 'c09n'),
+    (r'^(safety|termination|proof):note::', lambda m: 'c14n'),
+    (r'^(safety|termination|proof):gnu_symver::Ver', lambda m: 'c13i'),
+    (r'^(safety|termination|proof):file::', lambda m: 'c10n'),
+    (r'^(safety|termination|proof):\w+::<impl ParseAt|^(safety|proof):.*ParseAt for', lambda m: 'c02n'),
 ]
 def harnesses_for(obligation):
     """the bounded harnesses paired with an obligation (a pairing may name several, e.g. one per note alignment)"""
